@@ -196,11 +196,13 @@ struct Cfg {
     unsigned b = 512, t = 1024; std::vector<int64_t> flushes; SinkFault fault;
     XMLCh after[2] = { 0, 0 };                           // what lies in memory right behind character data handed to the listener
     std::string form = "callback", variant = "copy";     // pipeline only
+    std::string prelude;                                 // encoding of a small document written through the same stream and writer first ("" = fresh stream)
     Json raw;
     std::string key(bool withFault = true) const {
         std::string k = ser + "|" + std::to_string(b) + "|" + std::to_string(t) + "|"; for (auto f : flushes) k += std::to_string(f) + ",";
         if (after[0] || after[1]) k += "|after:" + hexCp(after[0]) + "," + hexCp(after[1]);
         if (ser == "pipeline") k += "|" + form + "|" + variant;
+        if (!prelude.empty()) k += "|after-" + prelude;
         if (withFault && !fault.kind.empty()) k += "|" + fault.kind + "@" + std::to_string(fault.at);
         return k;
     }
@@ -209,6 +211,7 @@ struct Cfg {
 Cfg cfgFromJson(const Json& j) {
     Cfg c; c.raw = j; c.ser = j.str("ser", "factory"); c.b = (unsigned)std::max<int64_t>(1, std::min<int64_t>(j.num("b", 512), 1 << 16)); c.t = (unsigned)std::max<int64_t>(1, std::min<int64_t>(j.num("t", 1024), 1 << 16));
     for (auto& f : j.at("flushes").a) if (f.t == Json::Int && f.i >= 0) c.flushes.push_back(f.i);
+    c.prelude = j.str("prelude", "");
     c.fault = SinkFault::fromJson(j.at("fault")); c.form = j.str("form", "callback"); c.variant = j.str("variant", "copy");
     { const Json& a = j.at("after"); for (size_t i = 0; i < 2 && i < a.a.size(); ++i) if (a.a[i].t == Json::Int) c.after[i] = (XMLCh)(a.a[i].i & 0xFFFF); }
     return c;
@@ -327,6 +330,21 @@ Out runCfg(const Script& s, const Model& m, const Cfg& c, const SinkFault& fault
         XalanDOMString version(s.version.c_str(), mm), encoding(s.encoding.c_str(), mm), empty(mm);
         SinkXalanOutputStream os(sink, mm, c.b, c.t);
         XalanOutputStreamPrintWriter pw(os);
+        if (!c.prelude.empty()) {
+            // the caller's stream and writer have served another document, in another encoding, before: nothing of that may show
+            Out po; sink.reset(SinkFault());
+            guarded(po, [&] {
+                XalanDOMString penc(c.prelude.c_str(), mm), v10("1.0", mm);
+                FormatterListener* p0 = XalanXMLSerializerFactory::create(mm, pw, v10, false, 0, penc, empty, empty, empty, true, empty);
+                struct Del { MemoryManager& m; FormatterListener* p; ~Del() { if (p) XalanDestroy(m, p); } } del{ mm, p0 };
+                static const XMLCh cdataType[] = { 'C', 'D', 'A', 'T', 'A', 0 };
+                const XS nm = ascii("prelude"), an = ascii("a"), tx = { 0xE9, 0xA7, 0xA3, ' ', 0x20AC, 0x4E2D, 0xA0, 0xFF, 'x', 0x80, 0x416 };
+                p0->startDocument(); AttributeListImpl al(mm); al.addAttribute(an.c_str(), cdataType, tx.c_str()); p0->startElement(nm.c_str(), al);
+                p0->characters(tx.c_str(), (FormatterListener::size_type)tx.size()); p0->comment(tx.c_str()); p0->endElement(nm.c_str()); p0->endDocument(); pw.flush();
+            });
+            if (po.threw) { o.skipped = true; return o; }      // the prelude encoding is not available here
+            sink.reset(fault);
+        }
         if (c.ser == "legacy") {
             guarded(o, [&] {
                 FormatterToXML fx(pw, version, false, 0, encoding, empty, empty, empty, true, empty, FormatterListener::OUTPUT_METHOD_XML, true, mm);
@@ -736,6 +754,9 @@ struct C04 : public Driver {
         static const std::vector<std::pair<int, int>> afters = { { ']', '>' }, { ']', ']' }, { 0xDC00, 'x' }, { '>', '>' }, { 0, 0 }, { '<', '&' } };
         cfg("factory", b0, t0); { Json& c = cfg("factory", gk.pick(bs), gk.pick(ts)); after(c, ']', '>'); } { Json& c = cfg("factory", gk.pick(bs), gk.pick(ts)); auto a = gk.pick(afters); after(c, a.first, a.second); }
         { Json& c = cfg("legacy", gk.pick(bs), gk.pick(ts)); if (gk.chance(1, 2)) after(c, ']', '>'); } if (gk.chance(1, 2)) cfg("legacy", gk.pick(bs), gk.pick(ts));
+        // the same stream and writer after they have served a document in another encoding
+        { static const std::vector<const char*> pre = { "ISO-8859-1", "US-ASCII", "UTF-8", "UTF-16", "windows-1252", "Shift_JIS", "GB18030" };
+          if (gk.chance(1, 3)) { Json& c = cfg(gk.chance(3, 4) ? "factory" : "legacy", gk.pick(bs), gk.pick(ts)); c["prelude"] = gk.pick(pre); } }
         if (wantPipeline) {
             const char* variant = gk.chance(1, 2) ? "copy" : "construct";
             Json& a = cfg("pipeline", 512, 1024); a["form"] = "callback"; a["variant"] = variant;
